@@ -133,3 +133,50 @@ env_proof! {
         core::mem::forget(rl);
     }
 }
+
+// The bytes journalled for one accepted write are exactly the canonical frame
+// of that record - the layout `kani_support::image::Img` writes, i.e. the files
+// the replay harnesses (C02, C03, C05, C09, C10) start from are what a store
+// puts on disk - and they sit at the returned segment.
+fn journal_bytes(kind: u8) {
+    use crate::kani_support::image::Img;
+    let cfg = mk_config(None, None, None, None);
+    let mut rl: RaftLog<RTypes> = open_empty(cfg);
+    let p0 = crate::chunk::open_chunk::kani_h_a_open_chunk::pending_len(&rl.wal.open);
+    let id: Id = kani::any();
+    kani::assume(id.1 < 250);
+    let b: u8 = kani::any();
+    let mut im = Img::new(3, 0);
+    let r = match kind {
+        0 => { im.vote(id); rl.save_vote(id) }
+        1 => { im.append(id, PR::new(2, b)); rl.append([(id, PR::new(2, b))]) }
+        2 => { im.commit(id); rl.commit(id) }
+        _ => { im.purge(id); rl.purge(id) }
+    };
+    let seg = match r {
+        Ok(s) => s,
+        Err(e) => { core::mem::forget(e); assert!(false, "write on an empty store refused"); return; }
+    };
+    let n = im.pos;
+    let pending = crate::chunk::open_chunk::kani_h_a_open_chunk::pending(&rl.wal.open);
+    assert!(pending.len() == p0 + n, "number of bytes journalled differs from the canonical frame length");
+    assert!(*seg.size() == n as u64, "segment size differs from the frame length");
+    let mut i = 0;
+    while i < 20 {
+        if i < n {
+            assert!(pending[p0 + i] == gfs::bytes(3)[i], "journalled byte differs from the canonical frame");
+        }
+        i += 1;
+    }
+    kani::cover!(true, "frame compared");
+    core::mem::forget(rl);
+}
+
+// @harness name=c11_journal_bytes_vote prop=C11 tier=quick timeout=1200 fs=128
+env_proof! { unwind = 22, rot = ghost, crc = real, fn c11_journal_bytes_vote() { journal_bytes(0); } }
+// @harness name=c11_journal_bytes_append prop=C11 tier=quick timeout=1200 fs=128
+env_proof! { unwind = 22, rot = ghost, crc = real, fn c11_journal_bytes_append() { journal_bytes(1); } }
+// @harness name=c11_journal_bytes_commit prop=C11 tier=thorough timeout=1200 fs=128
+env_proof! { unwind = 22, rot = ghost, crc = real, fn c11_journal_bytes_commit() { journal_bytes(2); } }
+// @harness name=c11_journal_bytes_purge prop=C11 tier=thorough timeout=1200 fs=128
+env_proof! { unwind = 22, rot = ghost, crc = real, fn c11_journal_bytes_purge() { journal_bytes(3); } }
